@@ -20,6 +20,19 @@ def kinds(ast, acc=None):
     return acc
 
 
+def render_tree(t):
+    """A node of tla/Tree.tla in the format of operator<< (std::ostream &, tree const &)."""
+    tt = t["tt"]
+    s = "(" + tt
+    if tt in ("CONST", "SUBX_EVAL", "BIND", "READ", "F_BUILTIN"):
+        s += "<" + t["x"][0] + ">"
+    elif tt == "STR":
+        s += "<" + "".join(t["x"]) + ">"
+    for c in t["ch"]:
+        s += " " + render_tree(c)
+    return s + ")"
+
+
 def generate(family, maxw, nshards, wd, timeout=1500):
     """Run NSHARDS TLC processes enumerating programs of FAMILY up to weight MAXW."""
     def one(sh):
@@ -61,7 +74,10 @@ def replay(vd, vecs, bdir, wd, pid, flavour_tag="plain", check_illformed=True,
     for i, v in enumerate(vecs):
         txt = zw.unparse(v["ast"], "top")
         texts.append(txt)
-        cmds.append("\t".join(["run", str(i), "max=2000,t=20", zw.hexq(txt)]))
+        cmds.append("\t".join(["run", str(i), "max=2000,t=20" + (",tree" if "tree" in v else ""), zw.hexq(txt)]))
+    for i, v in enumerate(vecs):
+        if "engns" in v:
+            cmds.append("\t".join(["run", "n%d" % i, "max=2000,t=20,nosimp", zw.hexq(texts[i])]))
     results = zw.run_driver(drv, cmds, wd, tag="replay-" + pid + "-" + flavour_tag)
     byid = {}
     for r in results:
@@ -116,6 +132,22 @@ def replay(vd, vecs, bdir, wd, pid, flavour_tag="plain", check_illformed=True,
                 vd.cov["traces_validated_against_impl"] += 1
             else:
                 vd.drift.append("pull sequence of `%s' differs from the engine model" % txt)
+        # the parse tree before and after tree::simplify must be the one tla/Tree.tla builds
+        if "tree" in v and "tree" in r:
+            dumps = r["tree"].split("\n")
+            want = [render_tree(v["tree"]), render_tree(v["stree"])]
+            if dumps == want:
+                vd.cov["traces_validated_against_impl"] += 1
+            else:
+                vd.drift.append("parse tree of `%s' differs from tla/Tree.tla: %s vs %s" % (txt, dumps, want))
+        # the unsimplified tree, compiled and run: same pull sequence as BuildQueryNoSimp
+        rn = byid.get("n%d" % i)
+        if rn is not None and v.get("engnsok") and rn.get("status") == "ok":
+            gotn = [zw.norm_real_stack(s, pos) for s in rn["results"]]
+            if [zw.norm_model_stack(s, pos) for s in v["engns"]] == gotn:
+                vd.cov["traces_validated_against_impl"] += 1
+            else:
+                vd.drift.append("pull sequence of unsimplified `%s' differs from the engine model" % txt)
     # confirm every mismatch by a second, isolated run
     confirmed = 0
     if mismatches:
